@@ -307,7 +307,7 @@ func hasDefaultOnlyFalse(p *packages.Package) bool {
 // they test: stop != nil (a context with a Done channel was set), env.done == 1,
 // vm.panic != nil. The result says what runFunc returns: 0 nil, 1 the error of
 // the context, 2 vm.panic.
-func runFuncTail(p *packages.Package) [8]int {
+func runFuncTail(p *packages.Package) [16]int {
 	fd := findMethod(p, "VM", "runFunc")
 	if fd == nil {
 		panic("method VM.runFunc not found")
@@ -394,6 +394,8 @@ func runFuncTail(p *packages.Package) [8]int {
 					return 1
 				case "vm.panic":
 					return 2
+				case "vm.env.failed()":
+					return 3
 				default:
 					panic("runFunc: unexpected result after the loop: " + r)
 				}
@@ -403,9 +405,9 @@ func runFuncTail(p *packages.Package) [8]int {
 		}
 		return -1
 	}
-	var out [8]int
-	for i := 0; i < 8; i++ {
-		atoms := map[string]bool{"stop!=nil": i&4 != 0, "atomic.LoadInt32(&vm.env.done)==1": i&2 != 0, "vm.panic!=nil": i&1 != 0}
+	var out [16]int
+	for i := 0; i < 16; i++ {
+		atoms := map[string]bool{"vm.env.failed()!=nil": i&8 != 0, "stop!=nil": i&4 != 0, "atomic.LoadInt32(&vm.env.done)==1": i&2 != 0, "vm.panic!=nil": i&1 != 0}
 		r := run(tail, atoms)
 		if r < 0 {
 			panic("runFunc: the statements after the loop do not end with a return")
@@ -483,13 +485,14 @@ func init() {
 			fmt.Fprintf(b, "Definition op_%s : N := %d.\n", n, vmConstInt(rt, n))
 		}
 		tail := runFuncTail(rt)
-		fmt.Fprintf(b, "\n(* what runFunc returns when its loop has been left by break, evaluated from the statements that follow\n   the loop for every value of: a context with a Done channel was set (stop != nil), env.done == 1,\n   vm.panic != nil; 0 nil, 1 the error of the context, 2 vm.panic *)\n")
-		fmt.Fprintf(b, "Definition runfunc_tail (has_ctx done pending : bool) : N :=\n  match has_ctx, done, pending with\n")
+		fmt.Fprintf(b, "\n(* what runFunc returns when its loop has been left by break, evaluated from the statements that follow\n   the loop for every value of: a context with a Done channel was set (stop != nil), env.done == 1,\n   vm.panic != nil; 0 nil, 1 the error of the context, 2 vm.panic;\n")
+		fmt.Fprintf(b, "   with a fourth condition, vm.env.failed() != nil (a goroutine started by a go statement ended with an error):\n   3 the error of that goroutine *)\n")
+		fmt.Fprintf(b, "Definition runfunc_tail_g (failed has_ctx done pending : bool) : N :=\n  match failed, has_ctx, done, pending with\n")
 		bs := func(v bool) string { return coqBool(v) }
-		for i := 7; i >= 0; i-- {
-			fmt.Fprintf(b, "  | %s, %s, %s => %d\n", bs(i&4 != 0), bs(i&2 != 0), bs(i&1 != 0), tail[i])
+		for i := 15; i >= 0; i-- {
+			fmt.Fprintf(b, "  | %s, %s, %s, %s => %d\n", bs(i&8 != 0), bs(i&4 != 0), bs(i&2 != 0), bs(i&1 != 0), tail[i])
 		}
-		b.WriteString("  end.\n")
+		b.WriteString("  end.\n\n(* no goroutine has failed *)\nDefinition runfunc_tail (has_ctx done pending : bool) : N := runfunc_tail_g false has_ctx done pending.\n")
 		return nil
 	})
 }
